@@ -729,15 +729,19 @@ class App:
         ctx.skip('C10.fd/too_close_to_yield_switch', int(np.sum(~use)))
         if not np.any(use):
             return
-        Hst = np.concatenate([Hs[i][None] + (OFF * hs[i])[:, None, None] * D[i][None] for i in range(npts)])
-        sst = np.repeat(st, len(OFF), axis=0)
-        # pad to the batch size the jitted function was compiled for (avoid recompiles): tile
-        reps = int(np.ceil(len(Hst) / self.N))
-        pad = reps * self.N - len(Hst)
-        Hp = np.concatenate([Hst, np.repeat(Hst[-1:], pad, axis=0)]) if pad else Hst
-        sp = np.concatenate([sst, np.repeat(sst[-1:], pad, axis=0)]) if pad else sst
-        Ws = np.concatenate([self.call(self.f_W, Hp[k * self.N:(k + 1) * self.N], sp[k * self.N:(k + 1) * self.N], dt) for k in range(reps)])[:len(Hst)]
-        Ws = Ws.reshape(npts, len(OFF))
+        def stencil_energies(hvec):
+            Hst = np.concatenate([Hs[i][None] + (OFF * hvec[i])[:, None, None] * D[i][None] for i in range(npts)])
+            sst = np.repeat(st, len(OFF), axis=0)
+            # pad to the batch size the jitted function was compiled for (avoid recompiles): tile
+            reps = int(np.ceil(len(Hst) / self.N))
+            pad = reps * self.N - len(Hst)
+            Hp = np.concatenate([Hst, np.repeat(Hst[-1:], pad, axis=0)]) if pad else Hst
+            sp = np.concatenate([sst, np.repeat(sst[-1:], pad, axis=0)]) if pad else sst
+            W_ = np.concatenate([self.call(self.f_W, Hp[k * self.N:(k + 1) * self.N], sp[k * self.N:(k + 1) * self.N], dt)
+                                 for k in range(reps)])[:len(Hst)]
+            return W_.reshape(npts, len(OFF))
+        Ws = stencil_energies(hs)
+        Ws_half = stencil_energies(0.5 * hs)     # second stencil: the oracle validates itself (see below)
         Hfull = np.concatenate([Hs, np.repeat(Hs[-1:], self.N - npts, axis=0)])
         sfull = np.concatenate([st, np.repeat(st[-1:], self.N - npts, axis=0)])
         Dfull = np.concatenate([D, np.repeat(D[-1:], self.N - npts, axis=0)])
@@ -763,8 +767,15 @@ class App:
             # (four unchanged-tree soaks at other seeds kept producing isolated 1e-6-relative tangent / 1e-7-relative
             # stress discrepancies from the finite-difference side; every injected derivative error seen so far is
             # >= 2e-4 (stress) / 1e-2 (tangent) relative, so the tolerances sit two decades below those)
-            tol1 = 1e-6 * s_scale + 1e3 * core.EPS * wmag / hstep
-            tol2 = 1e-4 * scaleE + 1e4 * core.EPS * wmag / hstep**2
+            # absolute rounding error of the energy: the strain measures are differences of O(1) quantities
+            # (C^m - I, log C, F - I), so the energy carries an error of order eps * modulus * strain, not eps * W
+            wround = core.EPS * (wmag + scaleE * strain)
+            tol1 = 1e-6 * s_scale + 1e2 * wround / hstep
+            tol2 = 1e-4 * scaleE + 1e3 * wround / hstep**2
+            if 1e3 * wround / hstep**2 > 1e-3 * scaleE:
+                # the admissible step is so small (point next to the yield switch) that rounding dominates
+                ctx.skip('C10.fd/rounding_dominated')
+                continue
             sig = {'model': self.mat['model'], 'kin': self.mat.get('kinematics'), 'rate': 'rate sensitivity' in self.mat}
             # Is the argument of a symmetric tensor function (log / power of C or Ce) at this point a matrix with
             # exactly repeated eigenvalues?  (known finding F-C10: the hand-written JVP rules select f'(lambda)
@@ -792,6 +803,17 @@ class App:
                     if 200 * core.EPS / gmin**2 > 1e-3:
                         ctx.skip('C10.fd/pow_symm_documented_inaccuracy')
                         continue
+            # self-validation of the finite-difference side: the same derivatives from a stencil of half the width
+            # must agree with the first ones to a quarter of the tolerance; otherwise truncation (a kink nearby)
+            # or rounding is polluting the reference and the point is skipped, not judged
+            if not np.all(np.isfinite(Ws_half[i])):
+                ctx.skip('C10.fd/nonfinite_energy')
+                continue
+            d1h = float(C1 @ Ws_half[i]) / (0.5 * hstep)
+            d2h = float(C2 @ Ws_half[i]) / (0.5 * hstep)**2
+            if abs(d1 - d1h) > 0.25 * tol1 or abs(d2 - d2h) > 0.25 * tol2:
+                ctx.skip('C10.fd/stencils_disagree')
+                continue
             ctx.require(abs(a1 - d1) <= tol1, 'C10', 'stress_vs_fd',
                         lambda: 'directional stress from autodiff %.12g vs finite difference of the energy %.12g (diff %.3g, tol %.3g)' % (a1, d1, a1 - d1, tol1), sig=sig)
             # the error of F-C10 sits in the term stress : (second derivative of the strain measure), so it scales
